@@ -11,6 +11,8 @@
 //	R6 signed-number folding             -1 -> -(1|.)
 //	R8 expbegin/expend removal in binds   . as P | body -> first(.) as P | body ;  src as P -> (src | .) as P
 //	R7 constant-path assignment          .a.b = x -> (.a.b|.) = x      (error CLASS may differ: not compared)
+//	R9 marker elision around inlined     .[q] -> .[(q, empty)]   .[a:b] -> .[(a, empty):(b, empty)]   getpath(p) -> getpath((p, empty))
+//	   key arguments                     ((q|.) emits the same code as q when q is one call: a fork is needed)
 //
 // Implementation-only oracle: the observation (first 50 outputs + ending) of every variant equals the
 // one of the original.  Every variant is also written as an ordinary case line, so the extracted
@@ -39,6 +41,12 @@ func parenPipeId(q *gojq.Query) *gojq.Query {
 }
 
 func termQuery(t *gojq.Term) *gojq.Query { return &gojq.Query{Term: t} }
+
+// ((q, empty)) as a query consisting of one parenthesised term
+func parenCommaEmpty(q *gojq.Query) *gojq.Query {
+	empty := termQuery(&gojq.Term{Type: gojq.TermTypeFunc, Func: &gojq.Func{Name: "empty"}})
+	return &gojq.Query{Term: &gojq.Term{Type: gojq.TermTypeQuery, Query: &gojq.Query{Left: q, Op: gojq.OpComma, Right: empty}}}
+}
 
 type rewriter struct {
 	rule  int
@@ -94,6 +102,17 @@ func (w *rewriter) index(x *gojq.Index) *gojq.Index {
 		return nil
 	}
 	n := &gojq.Index{Name: x.Name, Str: w.str(x.Str), Start: w.query(x.Start), End: w.query(x.End), IsSlice: x.IsSlice}
+	if w.rule == 9 {
+		if n.Start != nil {
+			n.Start = parenCommaEmpty(n.Start)
+			w.count++
+		}
+		if n.End != nil {
+			n.End = parenCommaEmpty(n.End)
+			w.count++
+		}
+		return n
+	}
 	if !w.on(2) {
 		return n
 	}
@@ -152,6 +171,10 @@ func (w *rewriter) term(t *gojq.Term) *gojq.Term {
 			a = w.query(a)
 			if w.on(3) {
 				a = parenPipeId(a)
+				w.count++
+			}
+			if w.rule == 9 && t.Func.Name == "getpath" {
+				a = parenCommaEmpty(a)
 				w.count++
 			}
 			f.Args = append(f.Args, a)
@@ -219,7 +242,7 @@ func (w *rewriter) term(t *gojq.Term) *gojq.Term {
 // variants returns the rewritten program texts by rule (0 = all of R1..R6 together)
 func variants(q *gojq.Query) map[int]string {
 	out := map[int]string{}
-	for _, r := range []int{1, 2, 3, 4, 5, 6, 7, 8, 0} {
+	for _, r := range []int{1, 2, 3, 4, 5, 6, 7, 8, 9, 0} {
 		w := &rewriter{rule: r}
 		nq := w.query(q)
 		if w.count == 0 {
